@@ -226,6 +226,14 @@ func runSubCase(c subCase) (subObs, error) {
 			trs[s.C] = rs
 			transfer = append(transfer, &subLog{Name: "pt-" + s.C, Kind: "transfer", Chid: chid.String(), A: 0, B: -1})
 		} else {
+			if s.TidOf != "" {
+				if c0, ok := w.ids[s.TidOf]; ok {
+					s.Msg.Tid = uint64(c0.ID)
+				}
+			}
+			if _, known := w.ids[s.C]; !known && s.C != "" && s.Msg.IsReq && s.Msg.Kind == "New" && (s.Kind == "RecvRequest" || s.Kind == "OnRequestReceived") {
+				w.ids[s.C] = w.implied(s) // later API calls and transport callbacks address the received channel by name
+			}
 			if _, _, pan := w.do(s); pan != "" {
 				o.Err = "panic: " + pan
 				return o, nil
